@@ -35,13 +35,14 @@ const basePrelude = `
 (define-fun anil () Any (mkAny 0 0))
 (define-fun isNil ((a Any)) Bool (= a (mkAny 0 0)))
 (define-fun isErr ((e Any)) Bool (not (= e (mkAny 0 0))))
-(define-fun wfSlice ((s Slice)) Bool (and (>= (sl.arr s) 0) (>= (sl.off s) 0) (>= (sl.len s) 0) (>= (sl.cap s) (sl.len s)) (<= (sl.cap s) 1152921504606846976) (=> (= (sl.arr s) 0) (and (= (sl.cap s) 0) (= (sl.off s) 0)))))
+(define-fun wfSlice ((s Slice)) Bool (and (>= (sl.arr s) 0) (>= (sl.off s) 0) (>= (sl.len s) 0) (>= (sl.cap s) (sl.len s)) (<= (sl.cap s) 281474976710656) (=> (= (sl.arr s) 0) (and (= (sl.cap s) 0) (= (sl.off s) 0)))))
 ; ---- byte strings (contents abstract) ----
 (declare-fun blen (Bytes) Int)
 (declare-fun cat (Bytes Bytes) Bytes)
 (declare-fun take (Bytes Int) Bytes)
 (declare-fun drop (Bytes Int) Bytes)
 (declare-fun bcmp (Bytes Bytes) Int)
+(declare-fun uv (Int) Bytes)
 ; ---- pointers into objects and arrays ----
 (declare-fun inner (Int Int) Int)
 (declare-fun inner.p (Int) Int)
